@@ -570,7 +570,7 @@ func main() {
 	out := flag.String("out", "", "cases directory")
 	seed := flag.Uint64("seed", 1, "seed")
 	tier := flag.String("tier", "quick", "tier")
-	stage := flag.String("stage", "bundle", "bundle|artifacts|config|scan|time|shlex")
+	stage := flag.String("stage", "bundle", "bundle|artifacts|config|scan|time|shlex|options")
 	_ = flag.String("replay", "", "unused: cases are regenerated from the seed")
 	flag.Parse()
 	slog.SetDefault(slog.New(slog.NewTextHandler(io.Discard, nil)))
@@ -588,6 +588,8 @@ func main() {
 		err = timeStage(*out, *seed, *tier)
 	case "shlex":
 		err = shlexStage(*out, *seed, *tier)
+	case "options":
+		err = optionsStage(*out, *seed, *tier)
 	default:
 		err = fmt.Errorf("unknown stage %q", *stage)
 	}
